@@ -187,9 +187,20 @@ func (st *SymbolTable) Resolve(name string) (symbol *Symbol, ok bool) {
 	return
 }
 
+// declared returns the symbol declared with the name in this scope. A builtin
+// that Resolve cached in the top scope after it was used is not a
+// declaration: the name can still be declared, which shadows the builtin.
+func (st *SymbolTable) declared(name string) (*Symbol, bool) {
+	symbol, ok := st.store[name]
+	if ok && symbol.Scope == ScopeBuiltin {
+		return nil, false
+	}
+	return symbol, ok
+}
+
 // DefineLocal adds a new symbol with ScopeLocal in the current scope.
 func (st *SymbolTable) DefineLocal(name string) (*Symbol, bool) {
-	symbol, ok := st.store[name]
+	symbol, ok := st.declared(name)
 	if ok {
 		return symbol, true
 	}
@@ -212,7 +223,7 @@ func (st *SymbolTable) DefineLocal(name string) (*Symbol, bool) {
 }
 
 func (st *SymbolTable) defineConstLit(name string) (*Symbol, bool) {
-	symbol, ok := st.store[name]
+	symbol, ok := st.declared(name)
 	if ok {
 		return symbol, true
 	}
@@ -270,7 +281,7 @@ func (st *SymbolTable) DefineGlobal(name string) (*Symbol, error) {
 		return nil, errors.New("global declaration can be at top scope")
 	}
 
-	sym, ok := st.store[name]
+	sym, ok := st.declared(name)
 	if ok {
 		if sym.Scope != ScopeGlobal {
 			return nil, fmt.Errorf("%q redeclared in this block", name)
